@@ -115,6 +115,157 @@ def worker(job):
     return dict(cfg=cfg, problems=problems)
 
 
+def gen_tree(D, seed, depth, kmax):
+    """A pseudo-random well-typed expression tree over leaves of random types: nested tuples + its (k, parity)."""
+    from .convspec import _pick
+
+    counter = [0]
+    leaves = {}
+
+    def leaf(t=None):
+        counter[0] += 1
+        if t is None:
+            t = (_pick(tuple(range(0, min(kmax, 2) + 1)), seed, "lk", counter[0]), _pick((0, 1), seed, "lp", counter[0]))
+        name = "x%d" % counter[0]
+        leaves[name] = t
+        return ("leaf", name), t
+
+    def gen(d):
+        counter[0] += 1
+        c = counter[0]
+        if d == 0:
+            return leaf()
+        e, t = gen(d - 1)
+        k, p = t
+        choices = ["smul", "add", "sub", "mul", "norm"]
+        if k >= 2:
+            choices += ["contract", "transpose", "contract"]
+        if k >= D - 1 and k - D + 2 >= 0:
+            choices += ["lc"]
+        if k <= kmax - 1:
+            choices += ["conv", "mul"]
+        op = _pick(tuple(choices), seed, "op", c)
+        if op == "smul":
+            return ("smul", e, _pick((2, -3, 5), seed, "c", c)), t
+        if op in ("add", "sub"):
+            e2, _ = leaf(t)
+            if _pick((0, 1), seed, "wrap", c):
+                e2 = ("smul", e2, 7)
+            return (op, e, e2) if _pick((0, 1), seed, "side", c) else (op, e2, e), t
+        if op == "norm":
+            return ("norm", e), (0, 0)
+        if op == "contract":
+            i, j = _pick(tuple(itertools.permutations(range(k), 2)), seed, "ij", c)
+            return ("contract", e, i, j), (k - 2, p)
+        if op == "transpose":
+            perm = _pick(tuple(itertools.permutations(range(k))), seed, "perm", c)
+            return ("transpose", e, perm), t
+        if op == "lc":
+            idx = _pick(tuple(itertools.permutations(range(k), D - 1)), seed, "lc", c)
+            return ("lc", e, idx), (k - D + 2, (p + 1) % 2)
+        k2max = kmax - k
+        t2 = (_pick(tuple(range(0, min(k2max, 2) + 1)), seed, "k2", c), _pick((0, 1), seed, "p2", c))
+        if op == "mul":
+            if d >= 2 and _pick((0, 1), seed, "deep", c) and t2[0] <= 1:
+                e2, t2 = gen(0)
+                if t2[0] + k > kmax:
+                    e2, t2 = leaf((0, t2[1]))
+            else:
+                e2, _ = leaf(t2)
+            return (("mul", e, e2) if _pick((0, 1), seed, "side", c) else ("mul", e2, e)), (k + t2[0], (p + t2[1]) % 2)
+        # conv: with an arbitrary (non-invariant) filter leaf
+        counter[0] += 1
+        name = "f%d" % counter[0]
+        leaves[name] = ("filter", t2)
+        return ("conv", e, ("leaf", name)), (k + t2[0], (p + t2[1]) % 2)
+
+    e, t = gen(depth)
+    return e, t, leaves
+
+
+def eval_tree(geom, e, env):
+    op = e[0]
+    if op == "leaf":
+        return env[e[1]]
+    if op == "smul":
+        return eval_tree(geom, e[1], env) * e[2]
+    if op == "add":
+        return eval_tree(geom, e[1], env) + eval_tree(geom, e[2], env)
+    if op == "sub":
+        return eval_tree(geom, e[1], env) - eval_tree(geom, e[2], env)
+    if op == "mul":
+        return eval_tree(geom, e[1], env) * eval_tree(geom, e[2], env)
+    if op == "norm":
+        return eval_tree(geom, e[1], env).norm()
+    if op == "contract":
+        return eval_tree(geom, e[1], env).contract(e[2], e[3])
+    if op == "transpose":
+        return eval_tree(geom, e[1], env).transpose(tuple(e[2]))
+    if op == "lc":
+        return eval_tree(geom, e[1], env).levi_civita_contract(tuple(e[2]))
+    if op == "conv":
+        return eval_tree(geom, e[1], env).convolve_with(eval_tree(geom, e[2], env))
+    raise ValueError(op)
+
+
+def show_tree(e):
+    if e[0] == "leaf":
+        return e[1]
+    if e[0] in ("add", "sub", "mul", "conv"):
+        return "(%s %s %s)" % (show_tree(e[1]), {"add": "+", "sub": "-", "mul": "*", "conv": "conv"}[e[0]], show_tree(e[2]))
+    if e[0] == "smul":
+        return "%d*%s" % (e[2], show_tree(e[1]))
+    return "%s(%s%s)" % (e[0], show_tree(e[1]), "".join(", %s" % (x,) for x in e[2:]))
+
+
+def tree_worker(job):
+    """A whole expression tree (the statement's own quantifier): evaluating it on g-transformed leaves must equal g
+    acting with the DECLARED type of the result on the original value -- composition also exercises the meta-data
+    (D, is_torus, declared type) that each operation hands to the next one."""
+    repo, D, seed, depth = job
+    it, w = get_interp(repo)
+    geom = it.get_module(GEOM)
+    kmax = 3 if D == 2 else 2
+    e, t, leaves = gen_tree(D, seed, depth, kmax)
+    N = (3,) * D
+    cfg = dict(op="tree", D=D, expression=show_tree(e), leaves={n: list(v) if v[0] != "filter" else ["filter", list(v[1])] for n, v in leaves.items()}, expected_type=list(t))
+    problems = []
+    A.set_cut(24)
+    try:
+        def build(g):
+            env = {}
+            for n, v in leaves.items():
+                is_f = v[0] == "filter"
+                k, p = v[1] if is_f else v
+                d = A.leaf(n, N + (D,) * k)
+                if g is not None:
+                    d = spec_action(d, D, k, p, g)[0]
+                env[n] = (geom.GeometricFilter if is_f else geom.GeometricImage)(d, p, D, True)
+            return env
+
+        base = attempt(lambda: eval_tree(geom, e, build(None)))
+        if isinstance(base, Rejected):
+            problems.append(("rejected", "a well-typed expression is rejected: %s" % base.exc, None))
+            return dict(cfg=cfg, problems=problems)
+        cfg["declared"] = [base.k, base.parity]
+        if (base.k, base.parity) != tuple(t) or base.D != D or tuple(base.is_torus) != (True,) * D:
+            problems.append(("type", "the expression declares (k=%r, parity=%r, D=%r, is_torus=%r); the algebra gives (k=%d, parity=%d)" % (base.k, base.parity, base.D, base.is_torus, t[0], t[1]), None))
+            return dict(cfg=cfg, problems=problems)
+        for g in generators(D):
+            res = attempt(lambda: eval_tree(geom, e, build(g)))
+            if isinstance(res, Rejected):
+                problems.append(("rejected", "the expression is rejected on transformed leaves (g=%s): %s" % (g, res.exc), None))
+                break
+            want = spec_action(base.data, D, base.k, base.parity, g)[0]
+            if res.data.shape != want.shape or not same_elems(res.data, want):
+                problems.append(("type", "the expression's result declares (k=%d, parity=%d) but does not transform with that type under g=%s" % (base.k, base.parity, g), site_of(res.data)))
+                cfg["g"] = g
+                break
+    finally:
+        A.set_cut(None)
+    return dict(cfg=cfg, problems=problems)
+
+
 def law_worker(job):
     repo, law, D = job
     it, w = get_interp(repo)
@@ -237,13 +388,21 @@ def run(ctx):
         ev.obligation("typing", not r["problems"], tuple(str(v) for v in cfg.values()) if cfg["a"][0] >= 1 or cfg["a"][1] == 1 else None, sample=cfg if ev.obligations % 37 == 0 else None)
         for kind, what, site in r["problems"]:
             by.setdefault((cfg["op"], kind), []).append((what, site, cfg))
+    # whole expression trees (pseudo-random, deterministic): the statement's own quantifier, beyond the induction
+    deep = ctx.tier == "thorough"  # (the quick tier of this property already runs the full single-operation box)
+    tj = [(ctx.repo, D, "t%d" % i, 1 + i % (4 if deep else 3)) for D in (2, 3) for i in range((2500 if D == 2 else 800) if deep else (150 if D == 2 else 60))]
+    for job, r in ctx.pairs(tree_worker, tj):
+        cfg = r["cfg"]
+        ev.obligation("tree", not r["problems"], (cfg["D"], cfg["expression"]), sample=cfg if ev.obligations % 11 == 0 else None)
+        for kind, what, site in r["problems"]:
+            by.setdefault(("tree", kind), []).append(("%s: %s" % (cfg["expression"], what), site, cfg))
     lj = [(ctx.repo, law, D) for law in ("reject", "parity_mod2", "contract_symmetry", "product_commutes") for D in (2, 3)]
     for job, r in ctx.pairs(law_worker, lj):
         cfg = r["cfg"]
         ev.obligation("law", not r["problems"], tuple(cfg.values()), sample=cfg if cfg["D"] == 2 else None)
         for kind, what, site in r["problems"]:
             by.setdefault((cfg["law"], kind), []).append((what, site, cfg))
-    METHOD = {"add": "GeometricImage.__add__", "sub": "GeometricImage.__sub__", "scalar_mul": "GeometricImage.__mul__", "rmul": "GeometricImage.__rmul__", "normalize_scale": "GeometricImage.times_scalar", "mul": "GeometricImage.__mul__", "transpose": "GeometricImage.transpose", "contract": "GeometricImage.contract", "multicontract": "GeometricImage.multicontract", "levi_civita": "GeometricImage.levi_civita_contract", "norm": "GeometricImage.norm", "convolve": "GeometricImage.convolve_with", "reject": "GeometricImage.__add__", "parity_mod2": "GeometricImage.__init__", "contract_symmetry": "GeometricImage.contract", "product_commutes": "GeometricImage.__mul__"}
+    METHOD = {"add": "GeometricImage.__add__", "sub": "GeometricImage.__sub__", "scalar_mul": "GeometricImage.__mul__", "rmul": "GeometricImage.__rmul__", "normalize_scale": "GeometricImage.times_scalar", "mul": "GeometricImage.__mul__", "transpose": "GeometricImage.transpose", "contract": "GeometricImage.contract", "multicontract": "GeometricImage.multicontract", "levi_civita": "GeometricImage.levi_civita_contract", "norm": "GeometricImage.norm", "convolve": "GeometricImage.convolve_with", "reject": "GeometricImage.__add__", "parity_mod2": "GeometricImage.__init__", "contract_symmetry": "GeometricImage.contract", "product_commutes": "GeometricImage.__mul__", "tree": "GeometricImage.__init__"}
     for (op, kind), items in sorted(by.items()):
         what, site, cfg = items[0]
         q = METHOD[op]
